@@ -22,6 +22,7 @@ pub mod c07;
 pub mod c08;
 pub mod c09;
 pub mod c10;
+pub mod c11;
 
 pub fn all() -> Vec<Scenario> {
     let mut v = vec![];
@@ -33,5 +34,6 @@ pub fn all() -> Vec<Scenario> {
     c08::register(&mut v);
     c09::register(&mut v);
     c10::register(&mut v);
+    c11::register(&mut v);
     v
 }
